@@ -3,7 +3,7 @@
     in theories/ParamsProofs.v (library theories/ParamsLemmas.v).  This file closes
     the statements, prints their assumptions and exhibits non-trivial objects. *)
 From LymphModel Require Import Base States Linalg Graph Transition Observation Dist Unilateral Models Params
-  ParamsStatements ParamsProofs ParamsBilateral.
+  ParamsStatements ParamsProofs ParamsBilateral ParamsMidline.
 
 (** * Unilateral: every graph, every set of distributions, every call *)
 Theorem C10_uni_names_nodup : C10_uni_names_nodup_stmt.
@@ -71,6 +71,31 @@ Theorem C10_bi_keyword_over_positional : C10_bi_keyword_over_positional_stmt.
 Proof. exact bi_keyword_over_positional. Qed.
 Print Assumptions C10_bi_keyword_over_positional.
 
+Theorem C10_bi_unknown_names_ignored : C10_bi_unknown_names_ignored_stmt.
+Proof. exact bi_unknown_names_ignored. Qed.
+Print Assumptions C10_bi_unknown_names_ignored.
+
+Theorem C10_bi_set_own_params_is_identity : C10_bi_set_own_params_is_identity_stmt.
+Proof. exact bi_set_own_params_is_identity. Qed.
+Print Assumptions C10_bi_set_own_params_is_identity.
+
+(** * Midline: every graph, use_mixing x LNL symmetry, with or without central / unknown *)
+Theorem C10_mid_names_nodup : C10_mid_names_nodup_stmt.
+Proof. exact mid_names_nodup. Qed.
+Print Assumptions C10_mid_names_nodup.
+
+Theorem C10_mid_nested_flattens_to_flat : C10_mid_nested_flattens_to_flat_stmt.
+Proof. exact mid_nested_flattens_to_flat. Qed.
+Print Assumptions C10_mid_nested_flattens_to_flat.
+
+Theorem C10_mid_set_get_positional : C10_mid_set_get_positional_stmt.
+Proof. exact mid_set_get_positional. Qed.
+Print Assumptions C10_mid_set_get_positional.
+
+Theorem C10_mid_set_get_keyword : C10_mid_set_get_keyword_stmt.
+Proof. exact mid_set_get_keyword. Qed.
+Print Assumptions C10_mid_set_get_keyword.
+
 (** * Known findings (the code does this; see known_findings.json) *)
 Theorem C10_positional_order_refuted : C10_positional_order_refuted_stmt.
 Proof. exact positional_order_refuted. Qed.
@@ -137,3 +162,22 @@ Example C10_ex_bi_call :
   let r := b_set_params C10_ex_bi (vals [qc 1 2]) [(["ipsi"; "spread"], V (qc 1 4)); (["TtoII"; "spread"], V (qc 1 8))] in
   snd r = Some [] /\ map qout (firstn 5 (map snd (b_got (fst r)))) = [(1, 8); (1, 4); (1, 8); (0, 1); (0, 1)]%Z.
 Proof. vm_compute. split; reflexivity. Qed.
+
+(** a midline model with mixing, a central model and an unknown model: positional values
+    0 and 1 arrive, midext_prob is taken from the last position *)
+Definition C10_ex_mid : midline := new_midline C10_ex_uni true true false true true.
+Example C10_ex_mid_ok : mid_set_ok C10_ex_mid = true.
+Proof. vm_compute. reflexivity. Qed.
+Example C10_ex_mid_names :
+  option_map (map fst) (m_got C10_ex_mid)
+  = Some [["ipsi"; "TtoII"; "spread"]; ["ipsi"; "TtoIII"; "spread"]; ["contra"; "TtoII"; "spread"]; ["contra"; "TtoIII"; "spread"];
+          ["mixing"]; ["II"; "growth"]; ["IItoIII"; "spread"]; ["IItoIII"; "micro"]; ["III"; "growth"]; ["I"; "growth"];
+          ["ItoII"; "spread"]; ["ItoII"; "micro"]; ["late"; "p"]; ["midext"; "prob"]].
+Proof. vm_compute. reflexivity. Qed.
+Example C10_ex_mid_call :
+  let v := [0%Qc; 1%Qc; qc 1 2; qc 1 3; qc 1 4; qc 1 5; qc 1 6; qc 1 7; qc 1 8; qc 1 9; qc 1 10; qc 1 11; qc 1 12; 1%Qc] in
+  let r := m_set_params C10_ex_mid ((vals v ++ [V (qc 7 8)])%list) [] in
+  out_res (snd r) = Some [Some (7, 8)%Z] /\ option_map (map snd) (m_got (fst r)) = Some v
+  /\ (* ext.contra = mixing * ipsi + (1 - mixing) * noext.contra = 1/4 * (0, 1) + 3/4 * (1/2, 1/3) *)
+     map qout (map snd (u_tumor_items (ml_ec (fst r)))) = [(3, 8); (1, 2)]%Z.
+Proof. vm_compute. repeat split; reflexivity. Qed.
